@@ -36,7 +36,9 @@ def code_text(node):
 
 
 def identity_side_conditions(rep):
-    """assumption 4 of the encoding (objects compare by identity and are truthy) and the constructor assumption"""
+    """assumption 4 of the encoding (objects compare by identity and are truthy) and the constructor assumption.  These
+    are assumptions of the PROOF: when one stops holding, the affected obligations are undecided (the bounded stand-in
+    decides), it is not by itself a violation of the property."""
     from sqlparse import sql
     bad = []
     for name, k in vars(sql).items():
@@ -45,15 +47,15 @@ def identity_side_conditions(rep):
                 if m in vars(k):
                     bad.append('%s.%s' % (name, m))
     common.structural(rep, '%s/sqlparse.sql/no class defines __eq__/__hash__/__bool__/__len__ (identity and truthiness of nodes)' % rep.prop,
-                      'sqlparse.sql', not bad, {'found': bad})
+                      'sqlparse.sql', not bad, {'found': bad}, undecided_if_false=True)
     inits = [name for name, k in vars(sql).items() if inspect.isclass(k) and issubclass(k, sql.TokenList)
              and k is not sql.TokenList and '__init__' in vars(k)]
     common.structural(rep, '%s/sqlparse.sql/no subclass of TokenList overrides __init__ (grp_cls(...) is TokenList.__init__)' % rep.prop,
-                      'sqlparse.sql', not inits, {'found': inits})
+                      'sqlparse.sql', not inits, {'found': inits}, undecided_if_false=True)
     ov = [name for name, k in vars(sql).items() if inspect.isclass(k) and issubclass(k, sql.Token)
           and k not in (sql.Token, sql.TokenList) and any(m in vars(k) for m in ('flatten', '__str__', '__iter__', '__getitem__', 'group_tokens'))]
     common.structural(rep, '%s/sqlparse.sql/no subclass overrides flatten/__str__/__iter__/__getitem__/group_tokens' % rep.prop,
-                      'sqlparse.sql', not ov, {'found': ov})
+                      'sqlparse.sql', not ov, {'found': ov}, undecided_if_false=True)
 
 
 def grouping_frame(rep):
@@ -72,7 +74,7 @@ def grouping_frame(rep):
                 continue
             bad.append(w.as_dict())
         common.structural(rep, '%s/%s/writes the tree only through group_tokens (and the Operator re-typing)' % (rep.prop, q),
-                          q, not bad, {'writes': bad})
+                          q, not bad, {'writes': bad}, undecided_if_false=True)
     # the re-typing store targets the matched token and only sets Operator
     q = 'sqlparse.engine.grouping.group_operator.<locals>.post'
     node = fns.get(q)
